@@ -7,7 +7,7 @@ From Coq Require Import String.
 From Boltons Require Import Lib.Prelude Lib.C06_Text Spec.C06_Spec Model.C06_Model Gen.C06_Gen Gen.C06_Src
   Proofs.C06_SrcEq
   Proofs.C06_Codec Proofs.C06_Utf8 Proofs.C06_Quote Proofs.C06_Lists Proofs.C06_Round Proofs.C06_Legal
-  Proofs.C06_Ports Proofs.C06_NoAuth Proofs.C06_Shape Proofs.C06_Parsed Proofs.C06_QuoteMin Proofs.C06_Parts Proofs.C06_RoundMin Proofs.C06_Total
+  Proofs.C06_Ports Proofs.C06_NoAuth Proofs.C06_NoAuthMin Proofs.C06_Shape Proofs.C06_Parsed Proofs.C06_QuoteMin Proofs.C06_Parts Proofs.C06_RoundMin Proofs.C06_Total
   Proofs.C06_GenOk.
 Open Scope N_scope.
 
@@ -334,6 +334,29 @@ Theorem C06_fixpoint_full_noauth_partial : forall T O, tables_ok T = true ->
   forall t1 u1, to_text T O true u = MOk t1 -> t1 <> [] -> url_init T O t1 = MOk u1 -> to_text T O true u1 = MOk t1.
 Proof. exact fixpoint_full_parsed_na. Qed.
 Print Assumptions C06_fixpoint_full_noauth_partial.
+
+(* ... and the same two facts for MINIMAL quoting, "whenever no decoded component contains a '%'" *)
+Theorem C06_roundtrip_min_noauth : forall T O, tables_ok T = true -> delims_ok T = true ->
+  forall scheme sep fam port path q frag,
+  let u := mkU scheme sep [] [] fam [] port path q frag in
+  let pathtxt := join [47] (map (quote_min T CPath) path) in
+  forallb (not_in [58; 47; 63; 35]) scheme = true ->
+  path <> [] -> Forall nopct path -> Forall pair_okm q -> nopct frag ->
+  (scheme = [] -> noscheme pathtxt = true) ->
+  forall m, to_text T O false u = MOk m -> m <> [] ->
+  url_init T O m = MOk (mkU scheme (nonempty (slashes scheme pathtxt (uses_netloc T u))) [] [] 0 [] None path q frag).
+Proof. exact roundtrip_nam. Qed.
+Print Assumptions C06_roundtrip_min_noauth.
+
+Theorem C06_fixpoint_min_noauth_partial : forall T O, tables_ok T = true -> delims_ok T = true ->
+  forall t u,
+  url_init T O t = MOk u ->
+  u_user u = [] -> u_pass u = [] -> u_host u = [] -> u_path u <> [] ->
+  Forall nopct (u_path u) -> Forall pair_okm (u_query u) -> nopct (u_frag u) ->
+  (u_scheme u = [] -> noscheme (join [47] (map (quote_min T CPath) (u_path u))) = true) ->
+  forall m u1, to_text T O false u = MOk m -> m <> [] -> url_init T O m = MOk u1 -> to_text T O false u1 = MOk m.
+Proof. exact fixpoint_min_parsed_na. Qed.
+Print Assumptions C06_fixpoint_min_noauth_partial.
 
 Example C06_ex_noauth :
   (do u <- url_init gen_tables id_oracles (Tx "mailto:a%40b@c?subject=x%20y");
